@@ -153,7 +153,12 @@ def families(n):
             ("filter", "wide or", "(|" + "(a=b)" * n + ")"), ("filter", "escapes", "(a=" + "\\2a" * n + ")"),
             ("filter", "stars", "(a=" + "b*" * n + ")"), ("filter", "a-run then **", "(cn=" + "a" * n + "**)"),
             ("filter", "oid arcs", "1" + ".5" * n + "!=a"), ("filter", "options", "a" + ";x" * n + "!=a"),
-            ("filter", "ext header", "a" + ":b" * n + ":=c"), ("filter", "spaces", "(&" + " " * n + "(a=b)" + " " * n + ")")]
+            ("filter", "ext header", "a" + ":b" * n + ":=c"), ("filter", "spaces", "(&" + " " * n + "(a=b)" + " " * n + ")"),
+            # truncated / unbalanced nesting (error paths of the recursive scanners: a retry or re-scan per level multiplies the work)
+            ("filter", "unclosed nested (!", "(!" * n + "(cn=" + "a" * (2 * n)), ("filter", "unclosed nested (&", "(&" * n + "(cn=" + "a" * (2 * n)),
+            ("filter", "unclosed nested (! short value", "(!" * n + "(a=b"),
+            ("filter", "unclosed wide and", "(&" + "(a=b)" * n), ("filter", "half-closed nested (|", "(|" * n + "(a=b)" + ")" * (n // 2)),
+            ("filter", "nested (! then garbage", "(!" * n + "(a=b)" + ")" * n + "x" * n), ("filter", "unopened closers", "(a=b)" + ")" * n)]
     for kind in ("oc", "at", "dit"):
         fam += [(kind, "unterminated DESC", "( 1.2 DESC '" + "a" * n), (kind, "escapes in DESC", "( 1.2 DESC '" + "\\5c" * n + "x"),
                 (kind, "escapes in DESC unterminated", "( 1.2 DESC '" + "\\27" * n), (kind, "empty ext lists", "( 1.2" + " X-A ( )" * n + "x"),
